@@ -755,7 +755,8 @@ def check_C11(run: core.Run, replay=None):
         gx = tlc_generate("xfer")
         cases = []
         for c in _sample(gen["c11"], 1500 if quick else 10**9, rng):
-            cases.append({"init": c["init"], "ops": [xfer_op(c)], "kind": "c11", "useed": len(cases) % 3})
+            # (every third request carries display names on its ids)
+            cases.append({"init": c["init"], "ops": [xfer_op(c, named=len(cases) % 3 == 1)], "kind": "c11", "useed": len(cases) % 3})
         for c in _sample(gen["verify"], 500 if quick else 10**9, rng):
             if c["shallow"] and len(cases) % 2:
                 # the same fetch asked through a data index (dvc_data.index.fetch), the remote opened with verify=...
